@@ -187,6 +187,9 @@ func RuleFilter(r *Report, p *Program, rules aspectSet) {
 			if len(pa.Results) == 2 && errNilness(pa, pa.Results[1]) == 1 {
 				nOK++
 				res := pa.Results[0]
+				for res.Op == "conv" && strings.HasPrefix(res.Name, "assert:") && len(res.Args) == 1 {
+					res = res.Args[0] // v.(T) in a typed wrapper around a type-erased helper
+				}
 				switch {
 				case len(sp.decodes) == 1 && strings.Contains(res.String(), sp.decodes[0].Result.String()+"#0"):
 				case len(sp.decodes) == 0 && isZeroTerm(res) && resp != "" && pa.State.Bools["isnil("+resp+")"]:
@@ -563,6 +566,11 @@ func RuleR3(r *Report, p *Program) {
 					if n, ok := types.Unalias(c.Value.Type()).(*types.Named); ok && n.Obj().Pkg() != nil && n.Obj().Pkg().Path() == modPath+"/uhppote" {
 						if k := driverKind(c.Method.Type().(*types.Signature)); k != "?" {
 							out[k] = true
+						} else if it, ok := n.Underlying().(*types.Interface); ok {
+							// an internal interface (a strategy): every implementation in the package may be the callee
+							for _, impl := range implementationsOf(p, it, c.Method.Name()) {
+								reach(impl, seen, out)
+							}
 						}
 					}
 					continue
@@ -662,7 +670,7 @@ func RuleBroadcastHelper(r *Report, p *Program) {
 			// marshal failed before sending
 			continue
 		}
-		en := errNilness(pa, pa.Results[1])
+		en := errNilness(pa, pa.Results[len(pa.Results)-1])
 		if !terr {
 			if en != 0 {
 				bad = "a transport failure is not reported"
@@ -693,6 +701,19 @@ func RuleBroadcastHelper(r *Report, p *Program) {
 		}
 		var have []string
 		res := pa.Results[0]
+		if len(pa.Results) == 1 {
+			// push style: the helper hands every kept reply to a callback instead of returning a list
+			res = mkNil(nil)
+			for _, e := range pa.Events {
+				if e.Kind == "call" && strings.HasPrefix(e.Name, "dyn:") && len(e.Args) == 1 {
+					v := e.Args[0]
+					for (v.Op == "conv" && strings.HasPrefix(v.Name, "assert:") || v.Op == "iface") && len(v.Args) == 1 {
+						v = v.Args[0]
+					}
+					have = append(have, v.String())
+				}
+			}
+		}
 		if res.Op == "sref" {
 			for _, e := range srefElems(res) {
 				// v.(T) on the decoded value (a generic helper) keeps the value
@@ -709,4 +730,33 @@ func RuleBroadcastHelper(r *Report, p *Program) {
 		}
 	}
 	r.Check(bad == "" && nOK >= 8, "B11", calleeName(fn), p.Pos(fn.Pos()), fmt.Sprintf("%d paths, %d after a successful transport call, %d replies each", len(paths), nOK, N), bad)
+}
+
+// implementationsOf: the methods `name` of the module's named types (T and *T) that implement the interface.
+func implementationsOf(p *Program, it *types.Interface, name string) []*ssa.Function {
+	var out []*ssa.Function
+	for _, pk := range p.Pkgs {
+		sc := pk.Types.Scope()
+		for _, n := range sc.Names() {
+			tn, ok := sc.Lookup(n).(*types.TypeName)
+			if !ok {
+				continue
+			}
+			if _, isIface := tn.Type().Underlying().(*types.Interface); isIface {
+				continue
+			}
+			for _, t := range []types.Type{tn.Type(), types.NewPointer(tn.Type())} {
+				if !types.Implements(t, it) {
+					continue
+				}
+				if sel := p.SSA.MethodSets.MethodSet(t).Lookup(tn.Pkg(), name); sel != nil {
+					if f := p.SSA.MethodValue(sel); f != nil {
+						out = append(out, f)
+					}
+				}
+				break
+			}
+		}
+	}
+	return out
 }
